@@ -683,5 +683,190 @@ theorem inject_builder_builds_the_plugin (params : Json) (ps : Option Json) (key
   · intro b ho; simp [buildInject, hk, hv, hf, decodeInjectFormat, injectFormatName, ho]
   · simp [buildInject, hk, hv, hf, decodeInjectFormat, injectFormatName]
 
+/-! ## the command-line entry (`app/cli/run.rs::command_line_runner`, `app/cli/cli_args.rs`)
+
+Model: `Model/Cli.lean` (the batch runner a parameter, here `callO`); run against the real `command_line_runner`
+by the `cli` stream of harness/src/c06/cli.rs.  The partition / one-response statements are `C06.cli_*`. -/
+
+/-- **(a) `CliArgs::validate` refuses exactly** a chunk size without `newline_delimited` and a chunk size below 1 —
+an iff on the arguments, for every `chunksize: Option<i64>` and both flags -/
+theorem cli_validate_refuses_iff (a : Cli.CliArgs) :
+    Cli.validate (ε := CallErr) a = .ok () ↔
+      ¬ (a.chunksize.isSome = true ∧ a.newlineDelimited = false) ∧ ∀ c, a.chunksize = some c → 1 ≤ c :=
+  Cli.validate_ok_iff a
+
+/-- what the second refusal is there for: `run_newline_json` with a chunk size of 0 panics
+(`itertools::chunks`: `assert!(size != 0)`), whatever the file holds and whatever the runner -/
+theorem cli_chunksize_zero_panics {ε ρ : Type} (run : List Json → Outcome (Except ε ρ)) (doc : Option Json)
+    (lines : List (Option Json)) :
+    Cli.runNewlineJsonO run (some 0) (.content doc lines) = .panic "itertools/chunks-zero" := rfl
+
+/-- … and the cast alone would not protect: `-1 as usize` is `usize::MAX`, `i64::MIN as usize` is `2^63` — it is
+the comparison `c > 0` of `get_chunksize_option` (and `c < 1` of `validate`) that keeps 0 away -/
+theorem cli_cast_wraps : Cli.asUsize (-1) = 2 ^ 64 - 1 ∧ Cli.asUsize (-(2 ^ 63)) = 2 ^ 63 ∧ Cli.asUsize 0 = 0 := by
+  decide
+
+/-- **the dispatch on validated arguments** (`chunksize` an `i64`): one document through `run_json`; chunks of
+exactly `chunksize` lines through `run_newline_json` — the cast loses nothing and the value is never 0; the arms
+"not yet implemented" and the error of `get_chunksize_option` are dead; `--newline-delimited` WITHOUT a chunk size
+passes `validate` and is then refused with the internal error "invalid argument combination should have been
+caught during CLI validation" (see the `_counterexample` below) -/
+theorem cli_dispatch_of_validated {ε ρ : Type} (run : List Json → Outcome (Except ε ρ)) (a : Cli.CliArgs)
+    (hv : Cli.validate (ε := ε) a = .ok ()) (hi : ∀ c, a.chunksize = some c → c < 2 ^ 63) (file : Cli.QueryFile) :
+    Cli.dispatchO run a file =
+      (match a.chunksize with
+       | none =>
+         if a.newlineDelimited then .ok { log := [], result := .error .invalidCombination }
+         else Cli.runJsonO run file
+       | some c => Cli.runNewlineJsonO run (some c.toNat) file) ∧
+    (∀ c, a.chunksize = some c → c.toNat ≠ 0) := by
+  obtain ⟨cs, nd⟩ := a
+  have hv' := (Cli.validate_ok_iff (ε := ε) ⟨cs, nd⟩).mp hv
+  cases cs with
+  | none => cases nd <;> exact ⟨rfl, by simp⟩
+  | some c =>
+    have h1 : 1 ≤ c := hv'.2 c rfl
+    have hnd : nd = true := by
+      cases nd with
+      | true => rfl
+      | false => exact absurd ⟨rfl, rfl⟩ hv'.1
+    subst hnd
+    have hpos : c > 0 := by omega
+    have hcast := Cli.asUsize_of_pos c h1 (hi c rfl)
+    refine ⟨?_, ?_⟩
+    · simp only [Cli.dispatchO, Cli.getChunksizeOption, hpos, if_true, hcast.1]
+    · intro c' hc'
+      cases hc'
+      rw [← hcast.1]; exact hcast.2
+
+/-- **`validate` does not refuse everything the dispatch refuses** — a `_counterexample` to "validate accepts
+exactly the argument combinations the runner serves": `--newline-delimited` without `--chunksize` passes
+`validate` (its doc comment: "chunksize must be set if newline_delimited_queries is true" is the MESSAGE of the
+opposite arm), the application is built, the query file opened, and the call then ends with `InternalError` on
+every file — although `run_newline_json` is written for it (`chunksize_option.unwrap_or(usize::MAX)`) -/
+theorem cli_validate_accepts_what_dispatch_refuses_counterexample {ε ρ : Type}
+    (run : List Json → Outcome (Except ε ρ)) (doc : Option Json) (lines : List (Option Json)) :
+    Cli.validate (ε := ε) { chunksize := none, newlineDelimited := true } = .ok () ∧
+    Cli.commandLineRunnerO run { chunksize := none, newlineDelimited := true } .good (.content doc lines)
+      = .ok { log := [], result := .error .invalidCombination } :=
+  ⟨rfl, rfl⟩
+
+/-- **(a) `command_line_runner` never panics and returns**, for every argument combination (`chunksize` any `i64`,
+both flags), every configuration file (unreadable, unbuildable, good), every query file that is missing or can be
+read to its end — blank lines, lines that are not JSON, a document that is no batch —, every per-run
+configuration: an `Ok` or an `Err` of the call.  `_partial`: as `call_never_panics_partial` (total `respond`, the
+plugins of the model), and the query file is not `unreadable` — for a file that opens but cannot be read the full
+statement is FALSE, see the `_counterexample` below. -/
+theorem cli_never_panics_partial {α : Type} (W : WOps α) (env : String → Bool × Bool) (app : App)
+    (runCfg : Option Json) (respond : Json → Json) (a : Cli.CliArgs)
+    (hi : ∀ c, a.chunksize = some c → c < 2 ^ 63) (cfg : Cli.ConfigFile) (file : Cli.QueryFile)
+    (hf : file ≠ .unreadable) :
+    ∃ o, Cli.commandLineRunnerO (callO W env app runCfg respond) a cfg file = .ok o :=
+  Cli.commandLineRunnerO_returns _
+    (fun b => (call_never_panics_partial W env app runCfg respond .null).2.1 b) a hi cfg file hf
+
+/-- **a query "file" that opens but cannot be read (a directory) makes `run_newline_json` run without bound** — a
+`_counterexample` to "the call returns": `BufRead::lines` yields the read error (`EISDIR`) on every call, each
+item is collected as an unparsable row, and as soon as the run of the empty batch succeeds (it does:
+`empty_batch`) the loop over the chunks never ends; with a chunk size the machine cannot collect the first chunk
+is never complete.  (`run_json` on the same file returns the read error.) -/
+theorem cli_unreadable_query_file_counterexample {ε ρ : Type} (run : List Json → Outcome (Except ε ρ)) (res : ρ)
+    (h : run [] = .ok (.ok res)) (c : Int) (h1 : 1 ≤ c) (h2 : c < 2 ^ 63) :
+    Cli.commandLineRunnerO run { chunksize := some c, newlineDelimited := true } .good .unreadable = .diverges ∧
+    Cli.commandLineRunnerO run { chunksize := none, newlineDelimited := false } .good .unreadable
+      = .ok { log := [], result := .error .notJson } := by
+  have hv : Cli.validate (ε := ε) { chunksize := some c, newlineDelimited := true } = .ok () := by
+    have : ¬ c < 1 := by omega
+    simp [Cli.validate, this]
+  have hpos : c > 0 := by omega
+  have hcast := Cli.asUsize_of_pos c h1 h2
+  refine ⟨?_, rfl⟩
+  simp only [Cli.commandLineRunnerO, hv, Cli.afterValidateO, Cli.dispatchO, Cli.getChunksizeOption, hpos, if_true,
+    Cli.runNewlineJsonO, Option.getD_some, hcast.2, if_false, h]
+
+-- non-vacuity of the hypothesis: the run of the empty batch succeeds in the model of the application
+example : callO C06.natOps (fun _ => (true, true))
+    { plugins := [], parallelism := 2, persist := true, policy := .none } none id [] = .ok (.ok []) := by rfl
+
+/-- **(d) what `run_newline_json` returns: the first failing run wins.**  If the runs of the chunks before `c`
+succeed and the run of chunk `c` fails with `e`, the call is `Err(e)`: the chunks before `c` have been served,
+the unparsable lines of `c` are not reported, and NOTHING of what comes after `c` matters — the statement does
+not mention `post`: those chunks are never run. -/
+theorem cli_first_failing_chunk_ends_the_call {ε ρ : Type} (run : List Json → Outcome (Except ε ρ))
+    (r : List (Option Json) → ρ) (n : Nat) (hn : 1 ≤ n) (doc : Option Json) (lines : List (Option Json))
+    (pre : List (List (Option Json))) (c : List (Option Json)) (post : List (List (Option Json))) (e : ε)
+    (hcs : chunks n lines = pre ++ c :: post)
+    (hpre : ∀ p ∈ pre, run (Cli.chunkBatch p) = .ok (.ok (r p)))
+    (hc : run (Cli.chunkBatch c) = .ok (.error e)) :
+    Cli.runNewlineJsonO run (some n) (.content doc lines)
+      = .ok { log := pre.map (fun p => { served := r p, parseErrors := Cli.chunkBad p }),
+              result := .error (.run e) } := by
+  have hn0 : n ≠ 0 := by omega
+  simp only [Cli.runNewlineJsonO, Option.getD_some, Cli.itChunksO, hn0, if_false, hcs]
+  exact Cli.runChunksO_first_failure run r c post e hc pre hpre
+
+/-- … and when no run fails every chunk is served and the call is `Ok` (`C06.cli_newline_json_all_chunks_run`).
+`_partial` reading of C12's "the call returns so the remaining queries are served": it holds for the chunks up to
+the first failing run only. -/
+theorem cli_remaining_chunks_served_partial {ε ρ : Type} (run : List Json → Outcome (Except ε ρ))
+    (r : List (Option Json) → ρ) (n : Nat) (hn : 1 ≤ n) (doc : Option Json) (lines : List (Option Json))
+    (hok : ∀ c ∈ chunks n lines, run (Cli.chunkBatch c) = .ok (.ok (r c))) :
+    Cli.runNewlineJsonO run (some n) (.content doc lines)
+      = .ok { log := (chunks n lines).map (fun c => { served := r c, parseErrors := Cli.chunkBad c }),
+              result := .ok () } := by
+  have hn0 : n ≠ 0 := by omega
+  simp only [Cli.runNewlineJsonO, Option.getD_some, Cli.itChunksO, hn0, if_false]
+  exact Cli.runChunksO_all_ok run r _ hok
+
+/-- the witness of the harness (`cli_corpus_failing_run_then_servable_chunk`): application without plugins, a
+per-run `parallelism` that reads as 0, `--chunksize 1 --newline-delimited` -/
+def cliWitnessApp : App := { plugins := [], parallelism := 2, persist := true, policy := .none }
+def cliWitnessQuery : Json := .obj [("origin_vertex", .num "0" 0), ("destination_vertex", .num "3" 0)]
+def cliWitnessFive : Json := .num "5" 0
+
+/-- **later chunks are NOT served after a failing run** — a `_counterexample` to "the call returns so the remaining
+queries are served" at the level of the command line: the file `{"origin_vertex":0,"destination_vertex":3}` / `5`
+in chunks of one line under a per-run parallelism of 0.  The run of the first chunk fails (`MinBinEmpty`: a query
+to balance over 0 bins), the call ends with that error and the line `5` is never run — although the same line as
+the FIRST chunk of a file is served: its run returns its (error) response and the call is `Ok`.  (Every run error
+of the model is a matter of configuration or of the sink, not of the queries; what the witness shows is that the
+loop gives up the whole file on the first of them.) -/
+theorem cli_later_chunks_not_served_counterexample (zero : Json) (h0 : zero.asU64? = some 0) :
+    let run := callO C06.natOps (fun _ => (true, true)) cliWitnessApp (some (.obj [("parallelism", zero)])) id
+    let args : Cli.CliArgs := { chunksize := some 1, newlineDelimited := true }
+    Cli.commandLineRunnerO run args .good (.content none [some cliWitnessQuery, some cliWitnessFive])
+      = .ok { log := [], result := .error (.run (.app .minBinEmpty)) } ∧
+    (∃ resp, Cli.commandLineRunnerO run args .good (.content none [some cliWitnessFive])
+      = .ok { log := [{ served := [resp], parseErrors := 0 }], result := .ok () }) := by
+  have hp : parseRunConfig (fun _ => (true, true)) (some (.obj [("parallelism", zero)]))
+      = some { par := some 0, persist := none, policy := none } := by
+    simp [parseRunConfig, runConfigKey, Json.get?, Json.lookup, decodeUsize, h0]
+  have h1 : callO C06.natOps (fun _ => (true, true)) cliWitnessApp (some (.obj [("parallelism", zero)])) id
+      [cliWitnessQuery] = .ok (.error (.app .minBinEmpty)) := by
+    unfold callO; rw [hp]; rfl
+  obtain ⟨resp, h2⟩ : ∃ resp, callO C06.natOps (fun _ => (true, true)) cliWitnessApp
+      (some (.obj [("parallelism", zero)])) id [cliWitnessFive] = .ok (.ok [resp]) := by
+    unfold callO; rw [hp]; exact ⟨_, rfl⟩
+  refine ⟨?_, resp, ?_⟩
+  · have := cli_first_failing_chunk_ends_the_call
+      (callO C06.natOps (fun _ => (true, true)) cliWitnessApp (some (.obj [("parallelism", zero)])) id)
+      (fun _ => []) 1 (Nat.le_refl 1) none [some cliWitnessQuery, some cliWitnessFive]
+      [] [some cliWitnessQuery] [[some cliWitnessFive]] (.app .minBinEmpty) (by rfl) (by simp) h1
+    exact this
+  · have := cli_remaining_chunks_served_partial
+      (callO C06.natOps (fun _ => (true, true)) cliWitnessApp (some (.obj [("parallelism", zero)])) id)
+      (fun _ => [resp]) 1 (Nat.le_refl 1) none [some cliWitnessFive]
+      (by
+        intro c hc
+        have : c = [some cliWitnessFive] := by
+          have hcs : chunks 1 [some cliWitnessFive] = [[some cliWitnessFive]] := by rfl
+          rw [hcs] at hc; simpa using hc
+        subst this; exact h2)
+    exact this
+
+-- non-vacuity: the chunks of the witness
+example : chunks 1 [some cliWitnessQuery, some cliWitnessFive] = [[some cliWitnessQuery], [some cliWitnessFive]] := by
+  rfl
+
 end C12
 end Compass
